@@ -1,10 +1,13 @@
-(* The dispatch conditions of apply_incremental_edit, the cache predicate, the stored clause list:
-   the facts that are decidable without the graph, and the refutation witnesses. *)
+(* The dispatch conditions of apply_incremental_edit, the cache predicate and the cache keys, the
+   stored clause list: the facts that are decidable without the graph, and the refutation
+   witnesses.  The definitions without suffix are the code after the repairs F14-F17 of /repo; the
+   `_v0` definitions are the code before them (K23, K25, K26, K34). *)
 From Coq Require Import List ZArith Bool Lia.
 From DD Require Import Model.Circuit Model.Query Model.Edit Proofs.Semantics Proofs.EditReduce Proofs.EditSpec.
 Import ListNotations.
 Open Scope Z_scope.
 
+(* ================================================================ dispatch *)
 Lemma dispatch_nothing f : dispatch f [] [] = Decided StTautology.
 Proof. reflexivity. Qed.
 
@@ -15,22 +18,67 @@ Proof.
   destruct a; destruct r; cbn; try reflexivity. destruct H; congruence.
 Qed.
 
-(* a single added unit clause over an existing variable takes the unit path - WHATEVER is to be
-   removed in the same edit (the removals are then dropped: finding K26) *)
-Lemma dispatch_unit f l r :
-  cache_hit f = false -> Z.abs l <= ig_nvars f -> dispatch f [[l]] r = Decided StUnitClause.
+(* a single added unit clause over an existing variable and NOTHING to remove takes the unit path *)
+Lemma dispatch_unit f l :
+  cache_hit f = false -> Z.abs l <= ig_nvars f -> dispatch f [[l]] [] = Decided StUnitClause.
 Proof.
   intros Hc Hl. unfold dispatch. rewrite Hc. cbn [is_nil andb negb max_var fold_right].
   assert (E : (ig_nvars f <? Z.max (Z.abs l) 0) = false) by (apply Z.ltb_ge; lia).
   now rewrite E.
 Qed.
 
+Lemma general_not_unit f :
+  (if stored_cnf_empty f
+   then (if root_is_node0 f then Decided StRecompile else Decided StTautology)
+   else GraphDependent) <> Decided StUnitClause.
+Proof. destruct (stored_cnf_empty f); [destruct (root_is_node0 f)|]; discriminate. Qed.
+
+(* the unit path is taken in exactly that case *)
+Lemma dispatch_unit_iff f a r :
+  dispatch f a r = Decided StUnitClause <->
+  cache_hit f = false /\ r = [] /\ exists l, a = [[l]] /\ Z.abs l <= ig_nvars f.
+Proof.
+  split.
+  - unfold dispatch. intros H.
+    destruct (is_nil a && is_nil r) eqn:En; [discriminate|].
+    destruct (cache_hit f) eqn:Ec; [discriminate|].
+    destruct a as [|[|l [|l2 c]] [|c2 a]]; try (exfalso; revert H; apply general_not_unit).
+    destruct r as [|cr r]; [|exfalso; revert H; cbn [is_nil andb]; apply general_not_unit].
+    cbn [is_nil andb negb max_var fold_right] in H.
+    destruct (ig_nvars f <? Z.max (Z.abs l) 0) eqn:E;
+      [exfalso; revert H; cbn [negb]; apply general_not_unit|].
+    apply Z.ltb_ge in E. split; [reflexivity|]. split; [reflexivity|]. exists l. split; [reflexivity|lia].
+  - intros [Hc [-> [l [-> Hl]]]]. now apply dispatch_unit.
+Qed.
+
+(* an edit that removes something never takes the unit path (K26 repaired) *)
+Lemma dispatch_removal_not_unit f a r : r <> [] -> dispatch f a r <> Decided StUnitClause.
+Proof. intros Hr H. apply dispatch_unit_iff in H. destruct H as [_ [Hr' _]]. contradiction. Qed.
+
+(* BEFORE repair F16: the unit path was taken WHATEVER was to be removed in the same edit; the
+   removals were then dropped (add_unit_clause does not read op_rmv): finding K26 *)
+Lemma dispatch_unit_v0 f l r :
+  cache_hit f = false -> Z.abs l <= ig_nvars f -> dispatch_v0 f [[l]] r = Decided StUnitClause.
+Proof.
+  intros Hc Hl. unfold dispatch_v0. rewrite Hc. cbn [is_nil andb negb max_var fold_right].
+  assert (E : (ig_nvars f <? Z.max (Z.abs l) 0) = false) by (apply Z.ltb_ge; lia).
+  now rewrite E.
+Qed.
+
+(* the repair changes the decision of mixed edits only *)
+Lemma dispatch_v0_same_without_removal f a : dispatch f a [] = dispatch_v0 f a [].
+Proof.
+  unfold dispatch, dispatch_v0.
+  destruct a as [|[|l [|l2 c]] [|c2 a]]; reflexivity.
+Qed.
+
 (* with an empty stored clause list (every nnf-loaded model; a CNF without effective clauses) every
    other edit is answered Tautology (nothing happens: K3 / K27) or, when the root is graph node 0,
-   Recompile of the edit's clauses ALONE (K20) *)
+   Recompile of the edit's clauses ALONE (K20).  "Other" = not a pure unit edit over an existing
+   variable; since F16 a unit clause that comes with removals is such an other edit as well. *)
 Lemma dispatch_empty_store f a r :
   cache_hit f = false -> stored_cnf_empty f = true -> (a <> [] \/ r <> []) ->
-  (forall l, a = [[l]] -> ig_nvars f < Z.abs l) ->
+  (forall l, a = [[l]] -> r = [] -> ig_nvars f < Z.abs l) ->
   dispatch f a r = Decided (if root_is_node0 f then StRecompile else StTautology).
 Proof.
   intros Hc Hs Hne Hunit. unfold dispatch. rewrite Hc, Hs.
@@ -38,12 +86,13 @@ Proof.
   { destruct a; destruct r; cbn; try reflexivity. destruct Hne; congruence. }
   rewrite Hnil.
   destruct a as [|[|l [|l2 c]] [|c2 a]]; try (destruct (root_is_node0 f); reflexivity).
-  specialize (Hunit l eq_refl). cbn [is_nil negb andb max_var fold_right].
+  destruct r as [|cr r]; [|cbn [is_nil andb]; destruct (root_is_node0 f); reflexivity].
+  specialize (Hunit l eq_refl eq_refl). cbn [is_nil negb andb max_var fold_right].
   assert (E : (ig_nvars f <? Z.max (Z.abs l) 0) = true) by (apply Z.ltb_lt; lia).
   rewrite E. cbn. destruct (root_is_node0 f); reflexivity.
 Qed.
 
-(* the cache predicate accepts the exact inverse of a cached edit ... *)
+(* ================================================================ the cache predicate *)
 Lemma subsetZ_refl a : subsetZ a a = true.
 Proof. apply subsetZ_In. auto. Qed.
 Lemma set_eqZ_refl a : set_eqZ a a = true.
@@ -54,17 +103,180 @@ Proof.
   split; [exact Hc|apply set_eqZ_refl].
 Qed.
 
+(* two clause lists denote the same set of clauses (clauses compared as literal sets) *)
+Definition same_lits (c d : clause) : Prop := forall l, In l c <-> In l d.
+Definition clauses_incl (x y : cnf) : Prop := forall c, In c x -> exists d, In d y /\ same_lits c d.
+Definition same_clauses (x y : cnf) : Prop := clauses_incl x y /\ clauses_incl y x.
+
+Lemma vec_value_eq_incl x y : vec_value_eq x y = true <-> clauses_incl x y.
+Proof.
+  unfold vec_value_eq, clauses_incl. rewrite forallb_forall. split; intros H c Hc.
+  - specialize (H c Hc). apply existsb_exists in H. destruct H as [d [Hd E]].
+    exists d. split; [exact Hd|]. unfold same_lits. now apply set_eqZ_In.
+  - destruct (H c Hc) as [d [Hd E]]. apply existsb_exists. exists d. split; [exact Hd|].
+    apply set_eqZ_In. exact E.
+Qed.
+
+Lemma clauses_incl_lits x y l : clauses_incl x y -> In l (concat x) -> In l (concat y).
+Proof.
+  intros H Hl. apply in_concat in Hl. destruct Hl as [c [Hc Hlc]].
+  destruct (H c Hc) as [d [Hd E]]. apply in_concat. exists d. split; [exact Hd|]. now apply E.
+Qed.
+
+(* the exact inverse of a cached edit matches ... *)
 Lemma cache_matches_inverse a r : cache_matches a r r a = true.
 Proof.
   unfold cache_matches. rewrite !vec_value_eq_refl, !andb_true_r.
   apply set_eqZ_In. intros x. unfold edit_lits. rewrite !in_app_iff. tauto.
 Qed.
 
-(* ... but also a request that undoes only part of it (one-directional inclusion): K25.
-   cached: add {1 3}, remove {1}; request: remove {1 3} - not the inverse, yet it matches *)
-Lemma cache_matches_partial_refuted :
-  exists a r a' r', cache_matches a r a' r' = true /\ ~ (vec_value_eq r a' = true).
-Proof. exists [[1; 3]], [[1]], [], [[1; 3]]. split; [vm_compute; reflexivity|vm_compute; discriminate]. Qed.
+(* ... and nothing but an inverse does (K25 repaired): the request (a, r) matches the entry
+   (ea, er) iff its added clauses are (as a set of sets) the entry's removed ones and vice versa *)
+Lemma cache_matches_iff ea er a r :
+  cache_matches ea er a r = true <-> same_clauses a er /\ same_clauses r ea.
+Proof.
+  unfold cache_matches, same_clauses. rewrite !andb_true_iff, !vec_value_eq_incl. split.
+  - intros [_ [[[H1 H2] H3] H4]]. tauto.
+  - intros [[H1 H2] [H3 H4]]. split; [|tauto].
+    apply set_eqZ_In. intros x. unfold edit_lits. rewrite !in_app_iff. split; intros [H|H].
+    + right. exact (clauses_incl_lits _ _ _ H4 H).
+    + left. exact (clauses_incl_lits _ _ _ H2 H).
+    + right. exact (clauses_incl_lits _ _ _ H1 H).
+    + left. exact (clauses_incl_lits _ _ _ H3 H).
+Qed.
+
+(* whatever the repaired predicate accepts the old one accepted as well *)
+Lemma cache_matches_v0_weaker ea er a r :
+  cache_matches ea er a r = true -> cache_matches_v0 ea er a r = true.
+Proof.
+  unfold cache_matches, cache_matches_v0. rewrite !andb_true_iff. tauto.
+Qed.
+
+(* BEFORE repair F15 (one-directional inclusion) the predicate also accepted a request that undoes
+   only PART of the entry: K25.  cached: add {1 3}, remove {1}; request: remove {1 3} - not the
+   inverse, yet it matched; the repaired predicate rejects it *)
+Lemma cache_matches_partial_refuted_v0 :
+  exists ea er a r, cache_matches_v0 ea er a r = true /\ ~ same_clauses a er /\
+                    cache_matches ea er a r = false.
+Proof.
+  exists [[1; 3]], [[1]], [], [[1; 3]]. split; [vm_compute; reflexivity|].
+  split; [|vm_compute; reflexivity].
+  intros [_ H]. destruct (H [1] (or_introl eq_refl)) as [d [[] _]].
+Qed.
+
+(* ================================================================ the cache keys *)
+Lemma cache_find_Some keys a r e :
+  cache_find keys a r = Some e -> In e keys /\ same_clauses a (snd e) /\ same_clauses r (fst e).
+Proof.
+  unfold cache_find. intros H. apply find_some in H. destruct H as [Hin Hm].
+  split; [exact Hin|]. now apply cache_matches_iff.
+Qed.
+
+(* after a unit edit the cache is empty: no request is answered from it (K34 repaired) *)
+Lemma cache_find_after_unit keys a r : cache_find (cache_after_unit keys) a r = None.
+Proof. reflexivity. Qed.
+
+Definition is_some {A} (o : option A) : bool := match o with Some _ => true | None => false end.
+
+Lemma no_undo_after_unit f keys a r :
+  cache_hit f = is_some (cache_find (cache_after_unit keys) a r) -> dispatch f a r <> Decided StUndo.
+Proof.
+  rewrite cache_find_after_unit. cbn [is_some]. intros Hc. unfold dispatch. rewrite Hc.
+  destruct (is_nil a && is_nil r); [discriminate|].
+  assert (G : (if stored_cnf_empty f
+               then (if root_is_node0 f then Decided StRecompile else Decided StTautology)
+               else GraphDependent) <> Decided StUndo).
+  { destruct (stored_cnf_empty f); [destruct (root_is_node0 f)|]; discriminate. }
+  destruct a as [|[|l [|l2 c]] [|c2 a]]; try exact G.
+  destruct (is_nil r && negb (negb (is_nil [[l]]) && (ig_nvars f <? max_var [[l]]))); [discriminate|exact G].
+Qed.
+
+(* BEFORE repair F17 the unit path left the cache alone: the entry of an OLDER edit survived the
+   unit edit and its inverse was answered Undo (restoring a state without the unit clause): K34.
+   keys after `add [2 3]` (Recompile): one entry; then `add [-1]` (UnitClause); request `remove [2 3]` *)
+Lemma undo_stale_after_unit_refuted_v0 :
+  exists keys a r, cache_find (cache_after_unit_v0 keys) a r <> None /\
+                   cache_find (cache_after_unit keys) a r = None.
+Proof. exists [([[2; 3]], [])], [], [[2; 3]]. split; [vm_compute; discriminate|reflexivity]. Qed.
+
+(* ================================================================ the stored clause list *)
+(* the retain step removes exactly the stored clauses that are (as sets) among the clauses to
+   remove, and keeps the order of the others: it is the removal step of the specification *)
+Lemma filter_true {A} (l : list A) : filter (fun _ => true) l = l.
+Proof. induction l as [|x l IH]; [reflexivity|]. cbn. now rewrite IH. Qed.
+
+Lemma retain_clauses_filter stored rmv :
+  retain_clauses stored rmv = filter (fun c => negb (mem_clause c rmv)) stored.
+Proof.
+  unfold retain_clauses, mem_clause. destruct rmv as [|r rmv]; [|reflexivity].
+  cbn [existsb negb]. symmetry. apply filter_true.
+Qed.
+
+Lemma retain_clauses_In stored rmv c :
+  In c (retain_clauses stored rmv) <-> In c stored /\ mem_clause c rmv = false.
+Proof. rewrite retain_clauses_filter, filter_In, negb_true_iff. reflexivity. Qed.
+
+Lemma mem_clause_iff c F : mem_clause c F = true <-> exists d, In d F /\ same_lits c d.
+Proof.
+  unfold mem_clause. rewrite existsb_exists. split; intros [d [Hd E]]; exists d; (split; [exact Hd|]).
+  - unfold same_lits. now apply set_eqZ_In.
+  - apply set_eqZ_In. exact E.
+Qed.
+
+Lemma retain_is_spec F n rmvs :
+  fst (edit_spec F n [] rmvs) = retain_clauses F (filter_map' norm_clause rmvs).
+Proof. rewrite retain_clauses_filter. reflexivity. Qed.
+
+(* a clause list on which simplify_clauses has nothing to do: every clause duplicate-free, not
+   tautological, not a unit clause *)
+Definition plain_clauses (F : cnf) : Prop :=
+  forall c, In c F -> NoDup c /\ is_taut c = false /\ length c <> 1%nat.
+
+Lemma dedup_NoDup c : NoDup c -> dedup c = c.
+Proof.
+  induction c as [|x c IH]; [reflexivity|]. intros H. inversion H as [|? ? Hx Hc]; subst.
+  cbn [dedup]. apply memZ_false in Hx. rewrite Hx. now rewrite IH.
+Qed.
+
+Lemma simplify_plain F : plain_clauses F -> simplify_clauses F = F.
+Proof.
+  intros HF. unfold simplify_clauses.
+  assert (E1 : filter (fun c => negb (is_taut c)) (map dedup F) = F).
+  { induction F as [|c F IH]; [reflexivity|]. cbn [map filter].
+    destruct (HF c (or_introl eq_refl)) as [Hn [Ht _]]. rewrite (dedup_NoDup c Hn), Ht. cbn [negb].
+    rewrite IH; [reflexivity|]. intros d Hd. apply HF. now right. }
+  rewrite E1.
+  assert (E2 : forall acc, fold_left (fun acc c => match c with [u] => add_set u acc | _ => acc end) F acc = acc).
+  { clear E1. induction F as [|c F IH]; [reflexivity|]. intros acc. cbn [fold_left].
+    destruct (HF c (or_introl eq_refl)) as [_ [_ Hl]].
+    destruct c as [|u [|u2 c]]; [| exfalso; now apply Hl |]; (apply IH; intros d Hd; apply HF; now right). }
+  rewrite E2. unfold apply_decisions. cbn [apply_decisions_go map]. apply app_nil_r.
+Qed.
+
+Lemma plain_example : plain_clauses [[-1; 2]; [-1; -2]].
+Proof.
+  assert (N : forall a b : Z, a <> b -> NoDup [a; b]).
+  { intros a b H. constructor; [intros [E|[]]; congruence|]. constructor; [intros []|constructor]. }
+  intros c [<-|[<-|[]]]; (split; [apply N; discriminate|split; [reflexivity|discriminate]]).
+Qed.
+
+Lemma plain_filter (p : clause -> bool) F : plain_clauses F -> plain_clauses (filter p F).
+Proof. intros HF c Hc. apply filter_In in Hc. now apply HF. Qed.
+
+(* on such a list a removal through adjust_intern_cnf IS the removal of the specification, for any
+   number of clauses removed at once (K23 repaired) *)
+Lemma adjust_removal_plain stored rmv :
+  plain_clauses stored ->
+  adjust_intern_cnf stored [] rmv = filter (fun c => negb (mem_clause c rmv)) stored.
+Proof.
+  intros H. unfold adjust_intern_cnf. rewrite app_nil_r, retain_clauses_filter.
+  apply simplify_plain. now apply plain_filter.
+Qed.
+
+Lemma adjust_removal_is_spec F n rmvs :
+  plain_clauses F ->
+  adjust_intern_cnf F [] (filter_map' norm_clause rmvs) = fst (edit_spec F n [] rmvs).
+Proof. intros H. rewrite adjust_removal_plain by exact H. reflexivity. Qed.
 
 (* K8: the stored clause list is unit-propagated (simplify_clauses), so removing the unit clause
    does not bring back what it satisfied / shortened *)
@@ -74,13 +286,35 @@ Lemma removal_after_simplify_refuted :
   length (cnf_models_n (fst (edit_spec k8_cnf 4 [] [[-4]])) 4) = 4%nat.
 Proof. vm_compute. split; reflexivity. Qed.
 
-(* K23: retain(any(!=)) keeps every clause when two different clauses are removed at once *)
-Lemma multi_removal_refuted :
-  adjust_intern_cnf [[-1; 2]; [-1; -2]] [] [[-1; 2]; [-1; -2]] = [[-1; 2]; [-1; -2]] /\
-  fst (edit_spec [[-1; 2]; [-1; -2]] 2 [] [[-1; 2]; [-1; -2]]) = [].
-Proof. vm_compute. split; reflexivity. Qed.
+(* K38: an edit answered Recompile adjusts the stored list twice; CNF {-1 -2} over 2 features, edit
+   (remove {-1} - a clause that is not there -, add {2}): the first round shortens {-1 -2} to {-1},
+   the second round removes it.  One round would have been right. *)
+Lemma recompile_adjusts_twice_refuted :
+  recompile_stored [[-1; -2]] [[2]] [[-1]] = [[2]] /\
+  cnf_models_n (recompile_stored [[-1; -2]] [[2]] [[-1]]) 2 = [[1; 2]; [-1; 2]] /\
+  cnf_models_n (fst (edit_spec [[-1; -2]] 2 [[2]] [[-1]])) 2 = [[-1; 2]] /\
+  cnf_models_n (adjust_intern_cnf [[-1; -2]] [[2]] [[-1]]) 2 = [[-1; 2]].
+Proof. vm_compute. repeat split; reflexivity. Qed.
 
-(* removing ONE clause works on a list without unit clauses *)
+(* with an empty stored list (early return of transform_to_cnf_from_starting_cnf) there is one round *)
+Lemma recompile_stored_empty a r : recompile_stored [] a r = adjust_intern_cnf [] a r.
+Proof. reflexivity. Qed.
+
+(* K23, BEFORE repair F14: retain(any(!=)) kept every clause when two different clauses were
+   removed at once; the repaired retain step removes both *)
+Lemma multi_removal_refuted_v0 :
+  adjust_intern_cnf_v0 [[-1; 2]; [-1; -2]] [] [[-1; 2]; [-1; -2]] = [[-1; 2]; [-1; -2]] /\
+  fst (edit_spec [[-1; 2]; [-1; -2]] 2 [] [[-1; 2]; [-1; -2]]) = [] /\
+  adjust_intern_cnf [[-1; 2]; [-1; -2]] [] [[-1; 2]; [-1; -2]] = [].
+Proof. vm_compute. repeat split; reflexivity. Qed.
+
+(* with ONE clause to remove the old retain step was right: same result as the repaired one *)
+Lemma retain_v0_single stored r : retain_clauses_v0 stored [r] = retain_clauses stored [r].
+Proof.
+  unfold retain_clauses_v0, retain_clauses. apply filter_ext. intros c. cbn [existsb].
+  now rewrite !orb_false_r.
+Qed.
+
 Lemma single_removal_example :
   adjust_intern_cnf [[-1; 2]; [-1; -2]] [] [[2; -1]] = [[-1; -2]].
 Proof. vm_compute. reflexivity. Qed.
